@@ -144,6 +144,62 @@ theorem reopen_records (old : Bytes) (d : DbImg) (mdata : Bytes) (h : WfDbImg ol
       .ok (d.id, d.flags, d.nodes.flatMap (·.recs)) := by
   rw [(reopen_contents old d mdata h).1]; rfl
 
+/-- **Reopen of a key-value database.** Take a database as the key-value model has it — a list of nodes, each
+with its skip-list level and its records (stored key, value) in key order (`Kv.Node`) — its id, flags and metadata,
+and a layout (`DbPlace`, `NodePlace` per node: block of the node record, block and size of its data block, page
+slot) such that everything fits and the regions are inside the file and pairwise disjoint (`DbFits`). Write it
+the way the C code does (`mkDb` threads the links, `writeDb` performs the stores) over arbitrary old file
+content. The reader that audits real files then returns the same id and flags, the same node list (levels and
+records, hence the same `Kv.flatten`-ed record list) and the same metadata. -/
+theorem reopen_db (old : Bytes) (dp : DbPlace) (flags id next : Nat) (mdata : Bytes) (ns : List PNode)
+    (h : DbFits old.length dp flags id next mdata ns) :
+    (parseDb (Mem.ofBytes (writeDb old (mkDb dp flags id next ns) mdata)) dp.blk).map
+        (fun r => (r.id, r.flags, r.nodes.map fun s => (⟨s.lvl, s.recs⟩ : Kv.Node Bytes Bytes))) =
+      .ok (id, flags, ns.map PNode.node) ∧
+    (parseDb (Mem.ofBytes (writeDb old (mkDb dp flags id next ns) mdata)) dp.blk).map
+        (fun r => r.nodes.flatMap (·.recs)) = .ok (Kv.flatten (ns.map PNode.node)) ∧
+    metaOf (Mem.ofBytes (writeDb old (mkDb dp flags id next ns) mdata)) (mkDb dp flags id next ns) mdata.length = mdata := by
+  have hr := reopen_contents old (mkDb dp flags id next ns) mdata (mkDb_wf _ dp flags id next mdata ns h)
+  have hb : (mkDb dp flags id next ns).blk = dp.blk := rfl
+  rw [hb] at hr
+  refine ⟨?_, ?_, hr.2⟩
+  · rw [hr.1]
+    simp only [Except.map]
+    have : (mkDb dp flags id next ns).nodes = mkNodes dp.blk ns := rfl
+    rw [this, mkNodes_nodes]
+    rfl
+  · rw [hr.1]
+    simp only [Except.map]
+    have : (mkDb dp flags id next ns).nodes = mkNodes dp.blk ns := rfl
+    rw [this, mkNodes_recs]
+    simp [Kv.flatten, PNode.node, List.flatMap_map]
+
+def exA : PNode := ⟨⟨8, 16, 9, 1⟩, 1, [([9, 9], [1]), ([8], [2, 2])]⟩
+def exB : PNode := ⟨⟨10, 24, 9, 2⟩, 0, [([5], []), ([1, 2, 3], [7])]⟩
+
+theorem exA_fits : PNodeFits exA := by
+  refine ⟨by decide, by decide, by decide, by decide, by decide, by decide, ?_, ?_, by decide, ?_⟩
+  · intro r hr; simp [exA] at hr; rcases hr with rfl | rfl <;> (intro b hb; simp at hb; omega)
+  · intro r hr; simp [exA] at hr; rcases hr with rfl | rfl <;> simp [encKv, enc_small, Gen.IWKV_MAX_KVSZ]
+  · simp [exA, layoutSlots, layoutOffs, encKv, enc_small, encSlots, total_cons, total_nil, Gen.KVBLK_IDXNUM, Gen.KVBLK_HDRSZ,
+      List.replicate]
+
+theorem exB_fits : PNodeFits exB := by
+  refine ⟨by decide, by decide, by decide, by decide, by decide, by decide, ?_, ?_, by decide, ?_⟩
+  · intro r hr; simp [exB] at hr; rcases hr with rfl | rfl <;> (intro b hb; simp at hb; omega)
+  · intro r hr; simp [exB] at hr; rcases hr with rfl | rfl <;> simp [encKv, enc_small, Gen.IWKV_MAX_KVSZ]
+  · simp [exB, layoutSlots, layoutOffs, encKv, enc_small, encSlots, total_cons, total_nil, Gen.KVBLK_IDXNUM, Gen.KVBLK_HDRSZ,
+      List.replicate]
+
+/-- non-vacuity of `reopen_db`: two nodes (levels 1 and 0, two records each) in an 8 KB file -/
+example : DbFits 8192 ⟨2, 6, 1⟩ 64 7 0 [1, 2, 3, 4, 5] [exA, exB] := by
+  refine ⟨by decide, by decide, by decide, by decide, by decide, by decide, by decide, by decide, ?_, ?_, ?_⟩
+  · intro x hx; simp at hx; rcases hx with rfl | rfl
+    · exact exA_fits
+    · exact exB_fits
+  · simp [dbRegions, nodeRegions, exA, exB, bs, Gen.IWKV_FSM_BPOW, Gen.DOFF_END, Gen.SBLK_SZ]
+  · simp [dbRegions, nodeRegions, exA, exB, bs, disj, Gen.IWKV_FSM_BPOW, Gen.DOFF_END, Gen.SBLK_SZ]
+
 example : WfSblk { flags := 1, lvl := 2, lkl := 3, pnum := 2, p0 := 70000, kblk := 12345678,
                    piAll := 5 :: 0 :: List.replicate 30 7, n := [9, 0, 4000000000], bpos := 16, lk := [1, 255, 0] } := by
   constructor <;> first | decide | (intro x hx; simp at hx; omega)
